@@ -180,6 +180,8 @@ struct Obs {
     eintr_retried: u64,
     attempts_exhausted: u64,
     expose: ExposeStats,
+    drained_before_read: u64,
+    arena_moved_on_after_read: u64,
 }
 
 fn classify(obs: &mut Obs, exp: &Expected, count: usize, attempts: usize, script: &[Step]) {
@@ -258,10 +260,27 @@ fn run_arena(script: &[Step], count: usize, attempts: usize, state: ArenaState, 
 }
 
 /// Targets 1/2: Encoder::encode_read and Encoder::read_n + encode_anchored.
-fn run_encoder(target: usize, script: &[Step], count: usize, attempts: usize, data: &[u8], prefix: &[u8], suffix: &[u8], obs: &mut Obs) -> Result<(), Fail> {
+/// `variant`: bit 0 = everything consumable is drained before the read;
+/// bits 1..2 = what the arena does after the read, before the output is
+/// looked at (0 nothing, 1 flush_cache, 2 ensure_capacity(70000), 3 flush +
+/// an unrelated 5000-byte read_n).
+#[allow(clippy::too_many_arguments)]
+fn run_encoder(target: usize, script: &[Step], count: usize, attempts: usize, data: &[u8], prefix: &[u8], suffix: &[u8], variant: u64, obs: &mut Obs) -> Result<(), Fail> {
     let exp = model(script, count, attempts, data.len());
     let mut enc = hcobs::Encoder::new();
     enc.encode_copy(prefix);
+    let mut drained: Vec<u8> = Vec::new();
+    if variant & 1 == 1 {
+        let mut c = enc.consumer();
+        for s in c.stable_prefix() {
+            drained.extend_from_slice(s);
+        }
+        let n = drained.len();
+        if c.advance_slices(n) != n {
+            return Err(fail("advance-ret", "advance_slices did not remove the stable bytes".into()));
+        }
+        obs.drained_before_read += 1;
+    }
     let mut reader = ScriptedReader::new(data, script.to_vec(), Tail::Eof);
     let att = NonZeroUsize::new(attempts).unwrap();
     let res: std::io::Result<Vec<u8>> = if target == 1 {
@@ -284,8 +303,11 @@ fn run_encoder(target: usize, script: &[Step], count: usize, attempts: usize, da
     }
     check_result(&res, &exp, data)?;
     classify(obs, &exp, count, attempts, script);
+    poke_arena(enc.consumer().arena(), variant, obs);
     enc.encode_copy(suffix);
-    let out = enc.finish().flatten().map_err(|_| fail("finish-pending", "encoder output has a pending backpatch after a read".into()))?;
+    let tail = enc.finish().flatten().map_err(|_| fail("finish-pending", "encoder output has a pending backpatch after a read".into()))?;
+    let mut out = drained;
+    out.extend_from_slice(&tail);
     let mut plain = prefix.to_vec();
     plain.extend_from_slice(&data[..exp.delivered]);
     plain.extend_from_slice(suffix);
@@ -297,13 +319,40 @@ fn run_encoder(target: usize, script: &[Step], count: usize, attempts: usize, da
 }
 
 /// Targets 3/4: Decoder::decode_read and Decoder::read_n + decode_anchored.
-fn run_decoder(target: usize, script: &[Step], count: usize, attempts: usize, plain: &[u8], split: usize, obs: &mut Obs) -> Result<(), Fail> {
+fn poke_arena(arena: &mut owning_iovec::ByteArena, variant: u64, obs: &mut Obs) {
+    match (variant >> 1) & 3 {
+        1 => arena.flush_cache(),
+        2 => arena.ensure_capacity(70_000),
+        3 => {
+            arena.flush_cache();
+            let junk = [0xC3u8; 5000];
+            let _ = arena.read_n(&junk[..], 5000, NonZeroUsize::MAX);
+        }
+        _ => return,
+    }
+    obs.arena_moved_on_after_read += 1;
+}
+
+#[allow(clippy::too_many_arguments)]
+fn run_decoder(target: usize, script: &[Step], count: usize, attempts: usize, plain: &[u8], split: usize, variant: u64, obs: &mut Obs) -> Result<(), Fail> {
     let encoded = hcobs_ref::encode(plain, 252, 64008);
     let split = split.min(encoded.len());
     let rest = &encoded[split..];
     let exp = model(script, count, attempts, rest.len());
     let mut dec = hcobs::Decoder::new();
     dec.decode_copy(&encoded[..split]).map_err(|e| fail("decode-prefix", e.to_string()))?;
+    let mut drained: Vec<u8> = Vec::new();
+    if variant & 1 == 1 {
+        let mut c = dec.consumer();
+        for s in c.stable_prefix() {
+            drained.extend_from_slice(s);
+        }
+        let n = drained.len();
+        if c.advance_slices(n) != n {
+            return Err(fail("advance-ret", "advance_slices did not remove the stable bytes".into()));
+        }
+        obs.drained_before_read += 1;
+    }
     let mut reader = ScriptedReader::new(rest, script.to_vec(), Tail::Eof);
     let att = NonZeroUsize::new(attempts).unwrap();
     let res: std::io::Result<Vec<u8>> = if target == 3 {
@@ -334,12 +383,15 @@ fn run_decoder(target: usize, script: &[Step], count: usize, attempts: usize, pl
     }
     check_result(&res, &exp, rest)?;
     classify(obs, &exp, count, attempts, script);
+    poke_arena(dec.consumer().arena(), variant, obs);
     dec.decode_copy(&rest[exp.delivered..]).map_err(|e| fail("decoder-state", format!("after a read that delivered {} byte(s), the decoder rejects the rest of a valid stream: {}", exp.delivered, e)))?;
-    let out = dec
+    let tail = dec
         .finish()
         .map_err(|e| fail("decoder-state", format!("after a read that delivered {} byte(s), finish() rejects a valid stream: {}", exp.delivered, e)))?
         .flatten()
         .map_err(|_| fail("finish-pending", "decoder output pending".into()))?;
+    let mut out = drained;
+    out.extend_from_slice(&tail);
     if out != plain {
         return Err(fail("decoder-output", format!("after a read that delivered {} byte(s), the decoder's output is not the original message", exp.delivered)));
     }
@@ -381,6 +433,8 @@ fn record(ctx: &mut Ctx, obs: &Obs) {
     ctx.feature_n("readn.eintr_retried", obs.eintr_retried);
     ctx.feature_n("readn.attempt_limit_reached", obs.attempts_exhausted);
     ctx.feature_n("readn.exposed_slices_checked", obs.expose.slices_checked);
+    ctx.feature_n("readn.wrapper.output_drained_before_the_read", obs.drained_before_read);
+    ctx.feature_n("readn.wrapper.arena_moved_on_after_the_read", obs.arena_moved_on_after_read);
 }
 
 pub fn run(ctx: &mut Ctx) {
@@ -471,10 +525,10 @@ pub fn run(ctx: &mut Ctx) {
                                 if target <= 2 {
                                     // data contains FE FD so that chunk boundaries depend on what was read
                                     let d: &[u8] = &[0x31, 0xFE, 0xFD, 0x32, 0xFE, 0x33, 0x34, 0x35];
-                                    run_encoder(target, &script, count, attempts, d, b"ab\xFE", b"\xFDcd", &mut obs)
+                                    run_encoder(target, &script, count, attempts, d, b"ab\xFE", b"\xFDcd", code / 3 + count as u64, &mut obs)
                                 } else {
                                     let plain: &[u8] = b"0123\xFE\xFD456789\xFE\xFDab";
-                                    run_decoder(target, &script, count, attempts, plain, (code % 5) as usize, &mut obs)
+                                    run_decoder(target, &script, count, attempts, plain, (code % 5) as usize, code / 3 + count as u64, &mut obs)
                                 }
                             });
                             let f = match res {
@@ -553,12 +607,12 @@ pub fn run(ctx: &mut Ctx) {
                 let plen = rng.range(0, 300);
                 let prefix = gen::payload(&mut rng, plen, gen::Style::Dense);
                 let suffix = gen::payload(&mut rng, plen / 2, gen::Style::StuffHeavy);
-                run_encoder(target, &script, count, attempts, d, &prefix, &suffix, &mut obs)
+                run_encoder(target, &script, count, attempts, d, &prefix, &suffix, rng.next_u64(), &mut obs)
             }
             _ => {
                 let plain = &d[..d.len().min(if miri { 300 } else { 70_000 })];
                 let split = rng.usize_below(plain.len() + 2);
-                run_decoder(target, &script, count, attempts, plain, split, &mut obs)
+                run_decoder(target, &script, count, attempts, plain, split, rng.next_u64(), &mut obs)
             }
         });
         ctx.ops += obs.calls;
